@@ -29,6 +29,8 @@ def sh(cmd, timeout=None, cwd=None, env=None, stdin=None):
         if isinstance(out, bytes): out = out.decode('utf8', 'replace')
         return -9, out, time.time() - t0
 
+MEM_BUDGET_GB = float(os.environ.get('VERIF_MEM_GB', '44'))
+
 class Broken(Exception):
     """machinery fault (never a violation)"""
 
@@ -295,10 +297,20 @@ def run_queries(queries, logdir, jobs=None, budget_s=None):
     """runs all queries on a pool; returns list of results in input order"""
     jobs = jobs or NCPU
     res = [None] * len(queries); t0 = time.time()
+    # memory-aware admission: a query declares its expected peak (mem_est, GB; default 2); the sum of the running ones
+    # stays below MEM_BUDGET_GB, so that a handful of 10 GB formulas do not get each other killed
+    cond = threading.Condition(); used = [0.0]
     def task(i):
         if budget_s and time.time() - t0 > budget_s:
             return i, dict(name=queries[i].name, status='skipped', meta=queries[i].meta, expect=queries[i].expect, witness_of=queries[i].witness_of, wall_s=0)
-        return i, run_query(queries[i], logdir)
+        need = min(float(getattr(queries[i], 'mem_est', 2) or 2), MEM_BUDGET_GB)
+        with cond:
+            while used[0] + need > MEM_BUDGET_GB and used[0] > 0: cond.wait(timeout=5)
+            used[0] += need
+        try:
+            return i, run_query(queries[i], logdir)
+        finally:
+            with cond: used[0] -= need; cond.notify_all()
     with ThreadPoolExecutor(max_workers=jobs) as ex:
         futs = [ex.submit(task, i) for i in range(len(queries))]
         for f in as_completed(futs):
